@@ -237,7 +237,8 @@ func NewEnv() *Env {
 		e.Maps = append(e.Maps, get(n).(*sema.EntitlementMapType))
 	}
 	elabFor := func(location common.Location) *sema.Elaboration {
-		if location == common.Location(envLocation2) {
+		// by address: the decoder of type IDs takes the contract name from the first identifier
+		if al, ok := location.(common.AddressLocation); ok && al.Address == envLocation2.Address {
 			return checker2.Elaboration
 		}
 		return checker.Elaboration
